@@ -245,7 +245,7 @@ def build(m, d):
 
 def expected_refs(path, table):
     """Read the object back; -> (list of refs in slot order, set of distinct complete strings of its
-    string-merge sections). A ref is dict(shape, want bytes, terminated, entsize)."""
+    string-merge sections). A ref is dict(shape, want bytes, terminated, ...)."""
     e = elfread.Elf(path)
     syms = e.symbols(".symtab")
     tsym = [s for s in syms if s.name == table][0]
@@ -421,6 +421,8 @@ def run_member(item):
                                     f"the {mode} link and the --no-string-merge link"))
     # Non-trivial member: merging moved at least one referenced byte relative to the others.
     res["rearranged"] = any(layout.get(mode) not in (None, layout.get("nomerge")) for mode in ("P1", "P2"))
+    if m["kind"] == "aarch64":
+        res["viol"] = [(k + ":aarch64", w) for k, w in res["viol"]]
     res["shapes"] = sorted(res["shapes"])
     return res
 
